@@ -1021,3 +1021,13 @@ THEOREMS = THEOREMS + [P + t for t in [
     "DDesc.structBS_okW", "DDesc.structO_okW", "PDesc.ofLeadBytes_okW", "PDesc.ofLeadStr_okW", "encodeParam_leadStr_rej", "PDesc.ofMinMaxLastBytes_okW", "PDesc.ofMinMaxLastStr_okW", "encodeParam_minmaxStr_rej", "minmax_rest_rej", "encodeParam_minmaxBytes_rej",
     "encodeParam_matchingReq_rej",
     "C04_endmarker_collision_counterexample"]]
+
+
+# --- W24 (conversion leaves: compu-method DOPs / DTC-DOPs in the rejection tier; Props/C04Nested3.lean)
+LEAN_TARGETS = LEAN_TARGETS + ["OdxVerif.Props.C04Nested3"]
+THEOREMS = THEOREMS + [P + t for t in [
+    "C04_nested3_partial", "C04_nested3_accepts_iff", "DescribedP3.okW", "PDesc.ofConv_okW", "DtcShape.spec_ok", "DtcShape.pdesc_okW",
+    "encodeDct_obj_bad", "encodeParam_value_missing", "C04_dtc_duplicate_code_counterexample", "cDesc_described",
+    # LINEAR / TEXTTABLE DOPs: the model's conversion layer is state-free and fails only with library errors / unmodelled
+    "dopP2I_plain", "dopI2P_plain", "CompuShape.spec_ok", "CompuShape.pdesc_okW", "CompuShape.ok_of_ttCheck", "CompuShape.ok_of_linCheck",
+    "p2i_textTable_mem", "tMode_ok", "tTemp_ok", "tDesc_described"]]
